@@ -484,6 +484,11 @@ def judge_gate(ctx, case, obs_list, answers):
                   'observed': ob, 'statement_says': want, 'model_says': model}
         ctx.count('gate.%s.%s' % (_auth_kind(auth), label))
         in_known = False
+        if got == 'raised' and not ob['member'] and not _real_decoder_accepts(connect_frame(payload, raw)):
+            # not a packet for the server's decoder (engineio.json: integers of more than 100 digits):
+            # nothing was presented, nothing happened
+            ctx.count('gate.rejected_by_decoder')
+            continue
         if got not in ('accepted', 'refused'):
             ctx.violation('oracle', 'admin CONNECT was neither accepted nor refused (%s) for payload %r against %r'
                           % (got, payload, _auth_brief(auth)), replay)
@@ -531,6 +536,15 @@ def judge_gate(ctx, case, obs_list, answers):
     return bad
 
 
+def _real_decoder_accepts(frame):
+    from socketio import packet as sp
+    try:
+        sp.Packet(encoded_packet=frame)
+        return True
+    except Exception:   # noqa
+        return False
+
+
 def _auth_kind(auth):
     if auth['kind'] == 'pred':
         return 'pred-coro' if auth.get('coro') else 'pred'
@@ -560,9 +574,14 @@ def run_gate(ctx, ncfg, npay):
     for ci in range(ncfg):
         auth, targets = gen_auth(rng)
         family = ('threading', 'asyncio')[ci % 2]
+        fixed = []
+        if ci < 2:
+            # corpus: the boundary recorded as KNOWN_FALSY, every run, both families
+            auth, targets = {'kind': 'pred', 'pred': 'isNull', 'coro': ci == 1}, [{'k': True}]
+            fixed = [('falsy', v, None) for v in ({}, '', [], False)]
         if auth['kind'] == 'pred' and auth.get('coro'):
             family = 'asyncio'
-        payloads = []
+        payloads = list(fixed)
         while len(payloads) < npay:
             label, p, raw = gen_payload(rng, targets)
             if p is not ABSENT and not _wireable(p):
@@ -1165,14 +1184,15 @@ def run(ctx):
     run_constructor(ctx)
     n_reg = run_registry(ctx)
     n_eq = run_pyeq(ctx, ctx.scale(4000, 60000))
-    ev_g, nt_g, samples_g = run_gate(ctx, ctx.scale(90, 900), ctx.scale(22, 40))
+    ev_g, nt_g, samples_g = run_gate(ctx, ctx.scale(160, 1500), ctx.scale(22, 40))
     run_positive_control(ctx)
-    ev_p, nt_p, samples_p = run_pairs(ctx, ctx.scale(96, 1200), ctx.scale(36, 50))
+    npairs = ctx.scale(288, 3600)
+    ev_p, nt_p, samples_p = run_pairs(ctx, npairs, ctx.scale(40, 60))
     ctx.coverage['evaluations'] = ev_g + ev_p + n_eq + n_reg
     ctx.coverage['gate_attempts'] = ev_g
     ctx.coverage['pair_ops'] = ev_p
     ctx.coverage['distinct_nontrivial'] = nt_g + nt_p
-    ctx.coverage['traces_validated_against_impl'] = ev_g + ctx.scale(96, 1200)
+    ctx.coverage['traces_validated_against_impl'] = ev_g + npairs
     ctx.coverage['samples'] = samples_g + samples_p
     ctx.coverage['rule'] = (
         'gate: per auth configuration (dict / list of dicts / sync+coroutine predicate / falsy) one real instrumented '
